@@ -44,7 +44,7 @@ fn go<'a, T: IteTable<'a, BddPtr<'a>> + Default>(
 ) -> CaseResult {
     let lru0 = rsdd::verif_hooks::lru_overwrites();
     let grow0 = rsdd::verif_hooks::table_grows();
-    let mut run = BddRun::new(b, case.cfg.n0 as usize);
+    let mut run = BddRun::new_embedded(b, case.cfg.labels());
     let cps: BTreeSet<usize> = if case.ops.is_empty() {
         BTreeSet::new()
     } else {
@@ -62,6 +62,12 @@ fn go<'a, T: IteTable<'a, BddPtr<'a>> + Default>(
                 st.bump(&format!("op.{}", out.kind));
                 let (p, t) = run.pool[out.idx];
                 let got = bdd_tt(p);
+                if let Some(l) = take_foreign_label() {
+                    return fail(
+                        &format!("C01/wrong-function:{}", out.kind),
+                        format!("op #{} {:?} on args {:?}: the returned diagram tests builder variable {}, which none of the operands mentions ({})", i, op, out.args, l, p.to_string_debug()),
+                    );
+                }
                 ensure!(
                     got == t,
                     format!("C01/wrong-function:{}", out.kind),
@@ -97,6 +103,8 @@ fn go<'a, T: IteTable<'a, BddPtr<'a>> + Default>(
     st.flag("case.lru_overwrote", lru > 0);
     st.flag("case.table_grew", grows > 0);
     st.flag("case.nonlinear_order", !case.cfg.is_linear());
+    st.flag("case.embedded_in_a_larger_builder", case.cfg.embed.is_some());
+    st.flag("case.embedded_beyond_64_variables", case.cfg.embed.map(|e| e.0 > 64).unwrap_or(false));
     st.flag("case.lru_cache", case.cfg.cache != 0);
     st.flag("case.all_cache", case.cfg.cache == 0);
     st.flag("case.default_table", case.cfg.table_cap.is_none());
@@ -110,7 +118,7 @@ fn go<'a, T: IteTable<'a, BddPtr<'a>> + Default>(
 impl SubCheckT for Hist {
     type Case = Case;
     const NAME: &'static str = "history";
-    const RULE: &'static str = "random builder configuration (n0<=6 initial variables, occasionally none, up to 8 in total through new_var, random order permutation, AllIteTable / LruIteTable default / LruIteTable with 1..16 or 32..256 slots, unique table default or 1..64 slots) and <=60 (thorough: <=100) operations over a growing pool; every result's truth table (read by walking var/low/high) is compared with the oracle, and the whole pool is re-read at 3 checkpoints and at the end. Non-trivial: >=3 results that are non-constant, depend on >=2 variables and come from a binary/ternary/cofactor-style op with at least one non-literal argument; distinct = distinct (configuration, history)";
+    const RULE: &'static str = "random builder configuration (n0<=6 initial variables, occasionally none, up to 8 in total through new_var; in a fifth of the cases embedded in a builder with 9..200 variables under a pseudo-random order, the history's variables scattered among them and partial models assigning the others too, random order permutation, AllIteTable / LruIteTable default / LruIteTable with 1..16 or 32..256 slots, unique table default or 1..64 slots) and <=60 (thorough: <=100) operations over a growing pool; every result's truth table (read by walking var/low/high) is compared with the oracle, and the whole pool is re-read at 3 checkpoints and at the end. Non-trivial: >=3 results that are non-constant, depend on >=2 variables and come from a binary/ternary/cofactor-style op with at least one non-literal argument; distinct = distinct (configuration, history)";
     fn cases(tier: Tier) -> u32 {
         tier.pick(20_000, 200_000)
     }
@@ -121,10 +129,14 @@ impl SubCheckT for Hist {
             // lossy caches of 32..256 slots, which grow several times within one history
             prop_oneof![30 => Just(None), 1 => Just(Some(0u8))],
             prop_oneof![8 => Just(None), 1 => (7u8..=10).prop_map(Some)],
+            // a fifth of the histories run inside a builder with 9..200 variables in a pseudo-random order, the
+            // history's own variables scattered among them
+            prop_oneof![4 => Just(None), 1 => (prop_oneof![9u8..=40, 41u8..=200], any::<u64>()).prop_map(Some)],
             ops_strategy(tier.pick(60, 100)),
             proptest::collection::vec(any::<u16>(), 3),
         )
-            .prop_map(|(mut cfg, n0, cache, ops, checkpoints)| {
+            .prop_map(|(mut cfg, n0, cache, embed, ops, checkpoints)| {
+                cfg.embed = embed;
                 if let Some(z) = n0 {
                     cfg.n0 = z;
                 }
